@@ -19,7 +19,7 @@ def sh(cmd, cwd, timeout=900):
 
 def confirm(stage, mid, slot):
     d = os.path.join(stage, mid)
-    v = mid.split("-")[1]
+    v = mid.split("-")[1][0]
     meta = json.load(open(os.path.join(d, v + ".meta.json")))
     patch = os.path.join(d, v + ".patch.diff")
     demo_files = [f for f in glob.glob(os.path.join(d, v + ".demo", "*")) if not f.endswith("README.txt")]
